@@ -111,7 +111,7 @@ pub fn run(ctx: &Ctx, rep: &mut Report) {
                 continue;
             }
             item += 1;
-            let kinds = if ctx.thorough() { 12 } else { 4 };
+            let kinds = if ctx.thorough() { 32 } else { 12 };
             for kind in 0..kinds {
                 let mut bits = content(kind % 4, l, hdr, &mut r);
                 bits.put(0, 6, t as u64);
